@@ -17,7 +17,6 @@ package redis
 //go:generate mockgen -package $GOPACKAGE -self_package $REPO_URI/proc/$GOPACKAGE -destination filter_mock_test.go $REPO_URI/proc/$GOPACKAGE Filter
 
 import (
-	"bytes"
 	"errors"
 )
 
@@ -71,7 +70,7 @@ func (c *FilterChain) Reset() {
 
 // Do call all filters in FilterChain
 func (c *FilterChain) Do(r *simpleRequest) FilterStatus {
-	cmd := string(bytes.ToLower(r.Body().Array[0].Text))
+	cmd := lowerASCII(r.Body().Array[0].Text)
 	for _, f := range c.filters {
 		if f.Do(cmd, r) == Stop {
 			return Stop
